@@ -10,7 +10,39 @@ def extra(ctx, info, rng, fam, hs):
     frag = c12rl.run(ctx, info, rng)
     from lib import c12pub
     frag.update(c12pub.run(ctx, info, rng))
+    frag.update(depth_race(ctx, info))
     return frag
+
+
+def depth_race(ctx, info):
+    """concurrent enqueues into a queue that was full, was told so, and has just had slots freed (reject policy): per trial exactly as many
+    racers are stored as slots were free, the others get ErrQueueFull, the active count stays within max_depth (lib: harness mode depth-race)"""
+    import json
+    import os
+    from lib import common as C
+    trials = 60 if ctx.tier == "quick" else 600
+    out_rows = []
+    for k, (depth, free, g) in enumerate(((2, 1, 8), (4, 2, 16), (1, 1, 8), (8, 3, 24))):
+        d = os.path.join(ctx.scratch, "depthrace-%d" % k)
+        os.makedirs(d, exist_ok=True)
+        rc, out, err = C.harness_run(info["hbin"], ["depth-race"], {"dir": d, "backends": ["memory", "sqlite"], "trials": trials, "goroutines": g,
+                                                                    "depth": depth, "free": free}, timeout=600)
+        if rc != 0:
+            raise RuntimeError("depth-race failed: " + err[-1500:])
+        for r in json.loads(out)["rows"]:
+            if r.get("err"):
+                raise RuntimeError("depth-race (%s): %s" % (r["backend"], r["err"]))
+            out_rows.append(dict(r, depth=depth, free=free, goroutines=g))
+            if r["first_bad_trial"] >= 0 or r["other_errors"]:
+                C.report(ctx, "depth-race:%s" % r["backend"],
+                         "%d goroutines enqueue at once into a %s queue of max_depth %d (reject) that had been full and then had %d slot(s) freed: in one trial %d "
+                         "were stored (between %d and %d over %d trials) and the active count reached %d; exactly %d may be stored and active stays <= %d "
+                         "(%d answers were neither success nor queue-full)" % (g, r["backend"], depth, free, r["max_stored"], r["min_stored"], r["max_stored"], r["trials"],
+                                                                             r["max_active"], free, depth, r["other_errors"]),
+                         {"kind": "schedule", "case": {"backend": r["backend"], "max_depth": depth, "freed_slots": free, "goroutines": g, "trials": r["trials"],
+                                                        "calls": ["fill to max_depth", "Enqueue -> ErrQueueFull", "Dequeue+Ack %d" % free, "%d x Enqueue concurrently" % g]},
+                          "observed": r, "how_to_replay": "./check C12 --replay <this file> (a schedule: repeated trials)"})
+    return {"depth_race": {"configs": len(out_rows), "trials_each": trials, "rows": [{k: r[k] for k in ("backend", "depth", "free", "goroutines", "max_stored", "max_active")} for r in out_rows]}}
 
 
 def main(ctx, replay):
